@@ -41,7 +41,7 @@ def parse_strat(line):
 
 def gen_strat_cases(rng, tier, names=None, per=None):
     hi = 10 if tier == 'quick' else 30
-    per = per or (10 if tier == 'quick' else 80)
+    per = per or (10 if tier == 'quick' else 200)
     maxlen = 120 if tier == 'quick' else 400
     cases = []
     for name in (names or SCAT.keys()):
@@ -491,7 +491,7 @@ def gen_c07(rng, tier):
             cases.append(('w:0,Inverse', [list(w)], cl))
             cases.append(('w:0,NoLoss', [list(w)], cl))
             cases.append(('w:0,StopLoss:%s' % f2h(rng.choice(PCTS)), [list(w)], cl))
-    nrand = 400 if tier == 'quick' else 4000
+    nrand = 400 if tier == 'quick' else 12000
     for _ in range(nrand):
         k = rng.choice([1, 2, 2, 3, 3, 4])
         n = rng.randrange(0, 60)
@@ -588,7 +588,7 @@ def check_c08(res, tier, replay):
         for L in range(0, 6):
             for w in itertools.product([S, H, B], repeat=L):
                 groups.append((list(w), [rng.choice([5.0, 8.0, 10.0, 12.5, 20.0]) for _ in range(L)]))
-        nrand = 300 if tier == 'quick' else 3000
+        nrand = 300 if tier == 'quick' else 9000
         for _ in range(nrand):
             n = rng.randrange(0, 80)
             m = n if rng.random() < 0.7 else rng.randrange(0, 80)
